@@ -20,6 +20,8 @@ Step ==
     \/ A.n = "restore" /\ CallRestore
     \/ A.n = "addEdges" /\ CallAddEdges(A.kept)
     \/ A.n = "removeEdges" /\ CallRemoveEdges(A.kept)
+    \/ A.n = "scaleParams" /\ CallScaleParams
+    \/ A.n = "solve" /\ Solve(A.ps)
 ObsMatch == \/ ObsT' = Ev.post
             \/ /\ ObsT' # Ev.post
                /\ PrintT(ToJson([mismatch |-> Traces[tid].id, at |-> l, br |-> act'.br, expected |-> ObsT']))
@@ -28,7 +30,7 @@ ObsMatch == \/ ObsT' = Ev.post
 \* totals the core reported at that event with them (volume, mass of every nuclide, parameter totals are floats)
 WantCoef == "coef" \in DOMAIN Traces[tid] /\ Traces[tid].coef
 CoefOut  == WantCoef => PrintT(ToJson([coef |-> Traces[tid].id, at |-> l, br |-> act'.br, vol |-> Obs'.vol, par |-> Obs'.par,
-                                       full |-> Obs'.full, mult |-> ObsT'.mult, volOk |-> ObsT'.volOk]))
+                                       full |-> Obs'.full, mult |-> ObsT'.mult, volOk |-> ObsT'.volOk, parOk |-> ObsT'.parOk]))
 TNext == /\ l <= Len(Traces[tid].ev) /\ l' = l + 1 /\ tid' = tid
          /\ Step
          /\ ObsMatch
